@@ -23,6 +23,7 @@ import (
 
 	"github.com/tuneinsight/lattigo/v6/core/rlwe"
 	"github.com/tuneinsight/lattigo/v6/ring"
+	"github.com/tuneinsight/lattigo/v6/utils"
 	"github.com/tuneinsight/lattigo/v6/utils/buffer"
 	"github.com/tuneinsight/lattigo/v6/utils/sampling"
 )
@@ -273,6 +274,12 @@ func (e fixEvaluator) Borrow(op0, opOut *rlwe.Ciphertext) {
 	opOut.MetaData = op0.MetaData
 	e.r.MulScalar(op0.Value[0], 2, opOut.Value[0])
 	opOut.Scale = opOut.Scale.Mul(rlwe.NewScale(2))
+}
+
+// OUTLEVEL control: the sum is computed at the common level but the output is never cut to it
+func (e fixEvaluator) AddAt(op0, op1, opOut *rlwe.Ciphertext) {
+	level := utils.Min(utils.Min(op0.Level(), op1.Level()), opOut.Level())
+	e.r.AtLevel(level).Add(op0.Value[0], op1.Value[0], opOut.Value[0])
 }
 
 // DEGLOOP control: the last component is never negated
